@@ -40,6 +40,10 @@ def context(draw, hostile=True):
         "fd": {"__call__": {"k_a": draw(tv)}},
         "textual": draw(tv), "texts": draw(st.lists(tv, min_size=1, max_size=2)), "structure_note": draw(tv), "structured": {"k_a": draw(tv)},
         "textile": draw(tv), "nocallx": draw(tv), "notx": draw(tv), "existsx": draw(tv),
+        # values that are not strings but whose text form carries markup (a list, a mapping): substituted as text or as an
+        # attribute value they are data like any string
+        "hl": ['x" onmouseover="y', "<b>", draw(tv)] if hostile else ["la", "lb", draw(tv)],
+        "hd": {"k_q": 'q"><u>', "k_r": draw(tv)},
     }
 
 
@@ -50,7 +54,8 @@ BASE_PATHS = ["s1", "s2", "n1", "zero", "es", "none1", "empty", "lst", "lst2", "
               # are missing, and a global define is seen from there on
               "v00", "v01", "v10", "v11", "v20", "v21", "v30", "gv1", "globalnav", "locale", "localx",
               # names that BEGIN with a keyword of the content / replace / define syntax (they are ordinary names)
-              "textual", "texts/0", "structure_note", "structured/k_a", "textile", "nocallx", "notx", "existsx"]
+              "textual", "texts/0", "structure_note", "structured/k_a", "textile", "nocallx", "notx", "existsx",
+              "hl", "hl", "hd", "hd", "hl/0", "hd/k_q"]
 SEQ_PATHS = ["lst", "lst", "lst2", "empty", "fl", "d1/k_l", "none1", "missing", "nothing", "default", "n1"]
 REPEAT_PROPS = ["index", "number", "even", "odd", "start", "end", "length", "letter", "Letter", "roman", "Roman"]
 
